@@ -176,6 +176,9 @@ class World:
             snap[label + '.ref_watchers'] = [id(w) for _, w in o._param__private.ref_watchers]
         for label, c in (('TA', self.TA), ('TB', self.TB), ('Src', self.Src)):
             snap[label + '.defaults'] = {p: (repr(getattr(c, p)) if p == 'fn' else id(getattr(c, p))) for p in c.param if p != 'dyn'}
+            # which Parameter object governs each name on the class (a subclass follows its parent's object until it gets its own)
+            snap[label + '.pobjs'] = {p: id(c.param[p]) for p in c.param}
+            snap[label + '.own'] = sorted(n for n, x in vars(c).items() if isinstance(x, self.param.Parameter))
         return snap
 
     PROBE = [['closeall'], ['src', 'v', 6], ['src', 'w', 7], ['root', 8], ['cset', 'TA', 'n', 8], ['cset', 'TA', 'm', 'cm'], ['set', 'n', 1], ['set', 'm', 'y'],
